@@ -106,6 +106,11 @@ BAD_PARAM_TYPES = [
     ('param-values-legal', 'Int32(min_value="a")'),
     ('param-values-legal', 'Float64(min_value="a")'),
     ('param-values-legal', 'Float32(max_value=3.5e38)'),
+    ('param-values-legal', 'Int32(min_value=1, max_value="a")'),
+    ('param-values-legal', 'Int64(min_value="a", max_value=1)'),
+    ('param-values-legal', 'Float64(min_value=0, max_value="a")'),
+    ('param-values-legal', 'Float32(min_value=null, max_value=1)'),
+    ('param-values-legal', 'String(min_length=1, max_length="a")'),
     ('param-values-legal', 'String(min_length=-1)'),
     ('param-values-legal', 'String(max_length=0)'),
     ('param-values-legal', 'String(min_length=2, max_length=1)'),
